@@ -18,7 +18,7 @@ pub const DEF: PropDef = PropDef {
     run,
     replay,
     level: "exploration",
-    rule: "(1) differential across backends: for every handshake string and every suite both backends support (25519 x {ChaChaPoly, AESGCM} x {SHA256, SHA512}), the session transcript (all handshake messages with payloads, handshake hashes after every message, transport messages in both directions before and after a synchronised rekey, stateless messages at high nonces) is computed for all 9 assignments of {default, ring-over-default fallback, default-over-ring fallback} to the two endpoints; all 9 transcripts must be byte-identical and every message must be accepted by the peer. (2) the complete fallback table: primitive kind in {rng, dh, hash, cipher} x every choice of that kind x availability in (preferred, fallback) in {00,01,10,11} using marker resolvers whose primitives carry a tag: the FallbackResolver yields Some iff at least one member does, and the tag shows the preferred member won; (3) nested fallbacks: ALL 16^3 availability vectors of three marker resolvers A, B, C combined as Fallback(Fallback(A,B),C) and Fallback(A,Fallback(B,C)): every kind and choice resolves to the first member in order A, B, C that provides it. Transport lengths in (1) include, per session, one entry of a ladder around 4 KiB / 9000 / 12 KiB / 16 KiB / 32 KiB / the maximum. Non-trivial = an assignment in which at least one endpoint uses ring primitives, or a table row; distinct by (name, suite, inputs) / row",
+    rule: "(1) differential across backends: for every handshake string and every suite both backends support (25519 x {ChaChaPoly, AESGCM} x {SHA256, SHA512}), the session transcript (all handshake messages with payloads, handshake hashes after every message, transport messages in both directions before and after synchronised rekeys (automatic; manual keys, automatic, the same manual keys again), stateless messages at high nonces) is computed for all 9 assignments of {default, ring-over-default fallback, default-over-ring fallback} to the two endpoints; all 9 transcripts must be byte-identical and every message must be accepted by the peer. (2) the complete fallback table: primitive kind in {rng, dh, hash, cipher} x every choice of that kind x availability in (preferred, fallback) in {00,01,10,11} using marker resolvers whose primitives carry a tag: the FallbackResolver yields Some iff at least one member does, and the tag shows the preferred member won; (3) nested fallbacks: ALL 16^3 availability vectors of three marker resolvers A, B, C combined as Fallback(Fallback(A,B),C) and Fallback(A,Fallback(B,C)): every kind and choice resolves to the first member in order A, B, C that provides it. Transport lengths in (1) include, per session, one entry of a ladder around 4 KiB / 9000 / 12 KiB / 16 KiB / 32 KiB / the maximum. Non-trivial = an assignment in which at least one endpoint uses ring primitives, or a table row; distinct by (name, suite, inputs) / row",
     technique: "differential testing across crypto backends (transcript equality over all backend assignments) + exhaustive enumeration of the fallback-resolution table with marker resolvers",
     assumptions: &[],
     panic_is_violation: false,
@@ -94,6 +94,40 @@ fn transcript(spec: &SessionSpec, payload_classes: &[u8], fill: u64) -> Result<T
             if !oneway {
                 tr.rekey_outgoing();
                 ti.rekey_incoming();
+            }
+        }
+    }
+    // manual keys, then automatic rekeys, then the SAME manual keys again (a backend that keeps
+    // per-key state across set()/rekey() must end up where the other backend does)
+    {
+        let (k1, k2) = (crate::engine::expand32(spec.key_seed, 6001), crate::engine::expand32(spec.key_seed, 6002));
+        for phase in 0..3 {
+            match phase {
+                0 | 2 => {
+                    ti.rekey_manually(Some(&k1), Some(&k2));
+                    tr.rekey_manually(Some(&k1), Some(&k2));
+                },
+                _ => {
+                    ti.rekey_outgoing();
+                    tr.rekey_incoming();
+                    if !oneway {
+                        tr.rekey_outgoing();
+                        ti.rekey_incoming();
+                    }
+                },
+            }
+            for i_sends in [true, false] {
+                if oneway && !i_sends {
+                    continue;
+                }
+                let payload = spec.payload(60 + phase, 11 + phase);
+                let (w, r) = if i_sends { (&mut ti, &mut tr) } else { (&mut tr, &mut ti) };
+                let m = t_write(w, &payload, payload.len() + 16).map_err(|x| Fail::new(format!("{name}: transport write after rekey phase {phase}: {}", e(&x))))?;
+                let p = t_read(r, &m, payload.len()).map_err(|x| Fail::new(format!("{name}: endpoints with these backends lose sync after manual keys / automatic rekey / the same manual keys again (phase {phase}): {}", e(&x))))?;
+                if p != payload {
+                    return Err(Fail::new(format!("{name}: transport payload differs after rekey phase {phase}")));
+                }
+                t.transport.push(m);
             }
         }
     }
